@@ -98,6 +98,10 @@ fn atom_eq(v: &Value, ty: Ty, want: i64) -> bool {
 }
 
 type Resolver<'a> = &'a dyn Fn(StringRef) -> Result<String, String>;
+/// `Some(kept)` once the string-array finding was met in this case: String-array elements whose
+/// text is not in `kept` (the strings some scalar String field references, which the writer does
+/// intern) are known to be lost in the rewritten file and are not compared there.
+type Mask<'a> = Option<&'a BTreeSet<String>>;
 
 /// Compare one library record with model row `r`. `where_` = "<stage>:<path>".
 fn cmp_record(
@@ -106,7 +110,7 @@ fn cmp_record(
     t: &Table,
     r: usize,
     resolve: Resolver,
-    mask_str_arrays: bool,
+    mask: Mask,
 ) -> CaseResult {
     if rec.len() != t.fields.len() {
         return Err(Fail::new(
@@ -140,9 +144,6 @@ fn cmp_record(
             let want = row[a];
             a += 1;
             if f.ty == Ty::Str {
-                if mask_str_arrays && f.arr.is_some() {
-                    continue;
-                }
                 let Value::StringRef(sr) = x else {
                     return Err(Fail::new(
                         format!("{where_}:value-differs:String"),
@@ -150,6 +151,9 @@ fn cmp_record(
                     ));
                 };
                 let want_s = t.str_of(want);
+                if f.arr.is_some() && mask.is_some_and(|kept| !want_s.is_empty() && !kept.contains(want_s)) {
+                    continue; // element lost by the known string-array defect
+                }
                 match resolve(*sr) {
                     Ok(s) if s == want_s => {}
                     Ok(s) => {
@@ -194,7 +198,7 @@ fn cmp_all(
     recs: &[Record],
     t: &Table,
     resolve: Resolver,
-    mask: bool,
+    mask: Mask,
 ) -> CaseResult {
     if recs.len() != t.rows.len() {
         return Err(Fail::new(
@@ -222,7 +226,7 @@ fn check_keys(
     rs: &RecordSet,
     t: &Table,
     binary: bool,
-    mask: bool,
+    mask: Mask,
 ) -> CaseResult {
     let Some(kf) = t.key else { return Ok(()) };
     let mode = if binary { "binary" } else { "hashed" };
@@ -322,7 +326,7 @@ fn check_file(
     stage: &str,
     bytes: &[u8],
     t: &Table,
-    mask: bool,
+    mask: Mask,
 ) -> Result<RecordSet, Fail> {
     let schema = crate_schema(t);
     let n = t.rows.len();
@@ -512,7 +516,7 @@ pub fn check_table(ctx: &Ctx, t: &Table) -> Result<Facts, Fail> {
 
     // A. reference file by the independent encoder; B/C/D. every access path agrees with the model
     let bytes0 = dbcenc::encode(t);
-    let rs0 = check_file(ctx, "reference-file", &bytes0, t, false)?;
+    let rs0 = check_file(ctx, "reference-file", &bytes0, t, None)?;
 
     // E. write
     let st = "rewritten-file";
@@ -593,6 +597,17 @@ pub fn check_table(ctx: &Ctx, t: &Table) -> Result<Facts, Fail> {
 
     // E3. independent decode of the written records against the model
     let am = t.atom_map();
+    let kept: BTreeSet<String> = {
+        let mut k = BTreeSet::new();
+        for row in &t.rows {
+            for (a, (fi, _, ty)) in am.iter().enumerate() {
+                if *ty == Ty::Str && t.fields[*fi].arr.is_none() {
+                    k.insert(t.str_of(row[a]).to_string());
+                }
+            }
+        }
+        k
+    };
     let mut mask = false;
     for r in 0..n {
         for (a, (fi, ei, ty)) in am.iter().enumerate() {
@@ -602,12 +617,12 @@ pub fn check_table(ctx: &Ctx, t: &Table) -> Result<Facts, Fail> {
                 Ty::Str => {
                     let want_s = t.str_of(want);
                     let in_array = t.fields[*fi].arr.is_some();
-                    if mask && in_array {
-                        continue;
+                    if mask && in_array && !want_s.is_empty() && !kept.contains(want_s) && got == 0 {
+                        continue; // further elements lost by the same known defect
                     }
                     let got_s = dbcenc::resolve(d1.block, got as u32);
                     if got_s.as_deref() != Ok(want_s) {
-                        if in_array && got == 0 && !want_s.is_empty() {
+                        if in_array && got == 0 && !want_s.is_empty() && !kept.contains(want_s) {
                             // build_string_block only looks at top-level Value::StringRef
                             soft(
                                 ctx,
@@ -681,6 +696,6 @@ pub fn check_table(ctx: &Ctx, t: &Table) -> Result<Facts, Fail> {
     }
 
     // F. every access path on the written file
-    check_file(ctx, st, &bytes1, t, mask)?;
+    check_file(ctx, st, &bytes1, t, if mask { Some(&kept) } else { None })?;
     Ok(facts)
 }
